@@ -1,20 +1,22 @@
 #!/bin/bash
 # Negative control: apply each behaviour-preserving refactoring of tools/benign/ to /repo, run all four
 # quick checks, expect exit 0 everywhere, undo. Usage: tools/run_benign.sh [pattern] [extra check args]
+# REPO / VDIR: run against a scratch worktree with a second copy of /verif (so /repo stays untouched)
+REPO="${VERIF_REPO:-/repo}"; VDIR="${VERIF_DIR:-/verif}"; export VERIF_REPO="$REPO"
 DIR=/verif/tools/benign; PAT="${1:-*}"; shift || true
 OUT="$DIR/RESULTS.txt"; : > "$OUT.tmp"
-if [ -n "$(git -C /repo status --porcelain --untracked-files=no)" ]; then echo "/repo is not clean"; exit 2; fi
+if [ -n "$(git -C "$REPO" status --porcelain --untracked-files=no)" ]; then echo "$REPO is not clean"; exit 2; fi
 for d in "$DIR"/$PAT.diff; do
   n=$(basename "$d" .diff)
-  git -C /repo apply "$d" || { echo "$n APPLY-FAILED" | tee -a "$OUT.tmp"; continue; }
+  git -C "$REPO" apply "$d" 2>/dev/null || git -C "$REPO" apply --3way "$d" >/dev/null 2>&1 || { echo "$n APPLY-FAILED" | tee -a "$OUT.tmp"; continue; }
   line="$n"
   for prop in C06 C07 C08 C17; do
-    out=$(cd /verif && VERIF_REPLAY_DIR=/dev/shm/benign_replays VERIF_EVIDENCE_DIR=/dev/shm/benign_evidence ./check "$prop" "$@" 2>&1); code=$?
+    out=$(cd "$VDIR" && VERIF_REPLAY_DIR=/dev/shm/benign_replays VERIF_EVIDENCE_DIR=/dev/shm/benign_evidence ./check "$prop" "$@" 2>&1); code=$?
     v=$(echo "$out" | grep -c '^VIOLATION')
     line="$line $prop:exit=$code,violations=$v"
     [ $code -ne 0 ] && echo "$out" | grep '^VIOLATION\|^HARNESS' | head -3 | cut -c1-300
   done
-  git -C /repo checkout -- . && git -C /repo clean -fdq -- cli core
+  git -C "$REPO" checkout -- . && git -C "$REPO" clean -fdq -- cli core
   echo "$line" | tee -a "$OUT.tmp"
 done
 mv "$OUT.tmp" "$OUT"
